@@ -82,7 +82,16 @@ def run_nodecache(ctx: Ctx) -> RuleResult:
             v = st.value
             ok = isinstance(v, ast.IfExp) and norm(v.test) == '%s in %s' % (label_var, cache) and norm(v.body) == '%s[%s]' % (cache, label_var) \
                 and v.orelse is p
-            ok = ok or v is p
+            ok = ok or (v is p and not isinstance(parent(st), ast.If))
+            # the same in statement form: if label in cache: X.node = cache[label] else: X.node = cache.setdefault(...)
+            outer_if = parent(st)
+            if v is p and isinstance(outer_if, ast.If):
+                from ..exprs import cond_values
+                cv = [c for c in cond_values([outer_if]) if c[0] == norm(st.targets[0])]
+                ok = bool(cv) and norm(cv[0][1]) == '%s in %s' % (label_var, cache) and norm(cv[0][2]) == '%s[%s]' % (cache, label_var) \
+                    and cv[0][3] is p
+                if cv:
+                    st = outer_if           # the label is defined before, the family added after, the whole conditional
             res.ob(site, 'lookup and creation use the same cache and the same label', ok)
             if not ok:
                 res.finding(f, st, 'the cache lookup and the creation disagree on cache or label', construct='cache-mismatch')
@@ -244,9 +253,8 @@ def run_visit_guard(ctx: Ctx) -> RuleResult:
         iter_ok = False
         for prev in _preceding(st):
             if isinstance(prev, ast.If):
-                chain = [prev]
-                while chain[-1].orelse and len(chain[-1].orelse) == 1 and isinstance(chain[-1].orelse[0], ast.If):
-                    chain.append(chain[-1].orelse[0])
+                # the guard may sit in an elif arm or nested in the arm that handles forest nodes: every `if` of the statement
+                chain = [x for x in ast.walk(prev) if isinstance(x, ast.If)]
                 for c in chain:
                     t = norm(c.test)
                     if t == 'id(%s) in visiting' % arg:
